@@ -16,6 +16,8 @@ pub use config::*;
 
 mod pp;
 use pp::{preprocess, PpResult};
+#[cfg(feature = "verif")]
+pub use pp::{Directive, DirectiveType};
 mod resolve_inputs;
 use resolve_inputs::resolve_inputs;
 mod scan_dir;
@@ -77,6 +79,8 @@ impl Txtpp {
         let progress = Progress::new(config.verbosity.clone());
 
         let threadpool = Builder::new().num_threads(config.num_threads).build();
+        #[cfg(feature = "verif")]
+        crate::verif::run_begin(config.num_threads);
         let (send, recv) = mpsc::channel();
 
         let mut runtime = Self {
@@ -90,6 +94,8 @@ impl Txtpp {
         };
 
         let result = runtime.run_internal();
+        #[cfg(feature = "verif")]
+        crate::verif::run_end(result.is_ok());
         if result.is_err() {
             let _ = runtime
                 .progress
@@ -135,6 +141,8 @@ impl Txtpp {
         }
 
         loop {
+            #[cfg(feature = "verif")]
+            crate::verif::coordinator_poll(self.progress.done_count, self.progress.total_count);
             let data = match self.recv.try_recv() {
                 Ok(data) => data,
                 Err(TryRecvError::Empty) => {
@@ -153,6 +161,8 @@ impl Txtpp {
             };
 
             let _ = self.progress.add_done(1);
+            #[cfg(feature = "verif")]
+            crate::verif::result_received(data.verif_describe());
 
             match data {
                 TaskResult::ScanDir(result) => {
@@ -244,8 +254,14 @@ impl Txtpp {
             .print_status(verbs::SCANNING, &dir.to_string(), Color::Yellow, true);
         let send = self.send.clone();
         log::info!("scanning directory: {dir}");
+        #[cfg(feature = "verif")]
+        let verif_task = crate::verif::task_spawned(crate::verif::TaskKind::ScanDir, dir.as_path());
         self.threadpool.execute(move || {
+            #[cfg(feature = "verif")]
+            let verif_guard = verif_task.begin();
             let result = scan_dir(&dir, recursive);
+            #[cfg(feature = "verif")]
+            verif_guard.result_ready(result.is_ok());
             send.send(TaskResult::ScanDir(result))
                 .expect("cannot send result")
         });
@@ -278,8 +294,21 @@ impl Txtpp {
         let mode = self.config.mode.clone();
         let trailing_newline = self.config.trailing_newline;
         log::info!("processing file: {file}");
+        #[cfg(feature = "verif")]
+        let verif_task = crate::verif::task_spawned(
+            if is_first_pass {
+                crate::verif::TaskKind::FirstPass
+            } else {
+                crate::verif::TaskKind::FinalPass
+            },
+            file.as_path(),
+        );
         self.threadpool.execute(move || {
+            #[cfg(feature = "verif")]
+            let verif_guard = verif_task.begin();
             let result = preprocess(&shell, &file, mode, is_first_pass, trailing_newline);
+            #[cfg(feature = "verif")]
+            verif_guard.result_ready(result.is_ok());
             send.send(TaskResult::Preprocess(result))
                 .expect("cannot send result")
         });
@@ -311,6 +340,8 @@ impl Drop for Txtpp {
             }
         }
         log::info!("txtpp destroyed");
+        #[cfg(feature = "verif")]
+        crate::verif::run_dropped();
         // the channel will be dropped
     }
 }
@@ -318,4 +349,22 @@ impl Drop for Txtpp {
 enum TaskResult {
     ScanDir(Result<Directory, PathError>),
     Preprocess(Result<PpResult, PpError>),
+}
+
+#[cfg(feature = "verif")]
+impl TaskResult {
+    fn verif_describe(&self) -> crate::verif::Received {
+        use crate::verif::Received;
+        match self {
+            TaskResult::ScanDir(r) => Received::ScanDir { ok: r.is_ok() },
+            TaskResult::Preprocess(Ok(PpResult::HasDeps(file, deps))) => Received::HasDeps {
+                file: file.as_path_buf().clone(),
+                deps: deps.iter().map(|d| d.as_path_buf().clone()).collect(),
+            },
+            TaskResult::Preprocess(Ok(PpResult::Ok(file))) => Received::Done {
+                file: file.as_path_buf().clone(),
+            },
+            TaskResult::Preprocess(Err(_)) => Received::Failed,
+        }
+    }
 }
